@@ -18,6 +18,7 @@ PROP_UNITS = {
     'C01': ['bits', 'movegen'],
     'C04': ['tt', 'mate'],
     'C13': ['mate'],
+    'C18': ['book'],
 }
 
 
